@@ -650,3 +650,71 @@ def mon_no_hang(ops, lines):
     if len(lines) < len(ops):
         return "C07-no-answer: the case stopped at op %d" % len(lines)
     return None
+
+
+def mon_push(ops, lines):
+    """C14 on the endpoint's own record: only push subscriptions are POSTed to; the body names the subscription and
+    carries the published data, attributes and id; a message is POSTed again in a later round as long as no POST of
+    it was answered 102/200/201/202/204, and never after one was; nothing is POSTed for a deleted subscription."""
+    ACCEPT = {"102", "200", "201", "202", "204"}
+    push_subs, deleted = set(), set()
+    published = {}      # id -> (data, attrs)
+    accepted = {}       # (sub, id) -> round index of the accepting answer
+    pending = {}        # (sub, id) -> True while the last answer was a failure
+    rnd = 0
+    for i, (o, r) in enumerate(zip(ops, lines)):
+        if r.startswith("!"):
+            return "C14-noanswer: op %d got %s" % (i, r[:60])
+        ot, rt = o.split(" "), r.split(" ")
+        if ot[0] == "CS" and rt[1:2] == ["0"] and ot[4] != "~":
+            push_subs.add(ot[1])
+        if ot[0] == "DS" and rt[1:2] == ["0"]:
+            deleted.add(ot[1])
+        if ot[0] == "PUB" and rt[1:2] == ["0"]:
+            toks, j, recs = ot, 3, []
+            for _ in range(int(ot[2])):
+                data, na = toks[j], int(toks[j + 1]); j += 2
+                at = []
+                for _ in range(na):
+                    at.append((toks[j], toks[j + 1])); j += 2
+                recs.append((data, tuple(sorted(at, key=lambda kv: unhx(kv[0])))))
+            for mid, rec in zip(rt[3:], recs):
+                published[mid] = rec
+        if ot[0] == "ROUND":
+            rnd += 1
+            n, j = int(rt[1]), 2
+            seen_now = set()
+            for _ in range(n):
+                k, sub, mid, eq, data, na = rt[j], rt[j + 1], rt[j + 2], rt[j + 3], rt[j + 4], int(rt[j + 5]); j += 6
+                at = []
+                for _ in range(na):
+                    at.append((rt[j], rt[j + 1])); j += 2
+                ans = rt[j]; j += 1
+                if sub not in push_subs:
+                    return "C14-not-a-push-subscription: POST for %r" % unhx(sub)
+                if sub in deleted:
+                    return "C14-post-after-delete: POST for deleted subscription %r" % unhx(sub)
+                if eq != "1":
+                    return "C14-payload-ids: messageId/message_id or publishTime fields differ"
+                if mid not in published:
+                    return "C14-payload-id: POST carries id %r that no Publish returned" % unhx(mid)
+                if data != published[mid][0]:
+                    return "C14-payload-data: POST of %r carries different data" % unhx(mid)
+                if tuple(at) != published[mid][1]:
+                    return "C14-payload-attributes: POST of %r carries attributes %r, published %r" % (unhx(mid), at, published[mid][1])
+                key = (sub, mid)
+                if key in accepted:
+                    return ("C14-post-after-accept: message %r was POSTed again to %r after the endpoint had answered %s"
+                            % (unhx(mid), unhx(sub), accepted[key]))
+                seen_now.add(key)
+                if ans in ACCEPT:
+                    accepted[key] = ans
+                    pending.pop(key, None)
+                elif ans != "hang":
+                    pending[key] = rnd
+            # every message whose last POST failed in an earlier round must be POSTed in this one
+            for key, r0 in list(pending.items()):
+                if r0 < rnd and key not in seen_now and key[0] not in deleted:
+                    return ("C14-not-retried: message %r failed on %r in round %d and was not POSTed in round %d"
+                            % (unhx(key[1]), unhx(key[0]), r0, rnd))
+    return None
